@@ -19,6 +19,7 @@ type HarnessResult struct {
 	Harness      string
 	Paths        int
 	Completed    int
+	Nontrivial   int
 	Vacuous      int
 	Inconclusive int
 	Violations   []*Violation
@@ -52,6 +53,7 @@ type ExploreOpts struct {
 	SampleEvery   int // take a path-end model every N completed paths
 	MaxSamples    int
 	Deadline      time.Time
+	Preempt       int
 }
 
 type workItem struct {
@@ -110,6 +112,9 @@ func (e *Engine) Explore(fn *ssa.Function, opts ExploreOpts) *HarnessResult {
 				res.Paths++
 				res.Instrs += pr.Instrs
 				res.Decisions += pr.Decisions
+				if pr.Forks > 0 {
+					res.Nontrivial++
+				}
 				res.Forced += pr.Forced
 				res.Assertions += pr.assertions
 				res.AssertQ += pr.assertQ
@@ -246,6 +251,7 @@ func (e *Engine) newRun(fn *ssa.Function, solver *Solver, prefix []uint64, opts 
 	if r.instrLimit == 0 {
 		r.instrLimit = 20_000_000
 	}
+	r.preemptBudget = opts.Preempt
 	r.sched = newScheduler(r)
 	r.clock.init()
 	return r
@@ -342,6 +348,7 @@ func (e *Engine) runPath(fn *ssa.Function, solver *Solver, prefix []uint64, opts
 	pr.Trail = r.trail
 	pr.Instrs = r.instrs
 	pr.Decisions = r.nDecided
+	pr.Forks = r.nForks
 	pr.Forced = r.nForced
 	pr.Covers = r.covers
 	pr.assertions = r.assertions
